@@ -385,6 +385,7 @@ def prop_C18(ctx):
         + gen.grid_trait_instrs() + gen.composites(ctx.rng, ctx.sz['comp']) + gen.soup(ctx.rng, ctx.sz['soup']) + attr_shape_cases() \
         + gen.c03_cases(ctx.rng, 1500 if q else 15000) + gen.c03_hinted_cases(ctx.rng, 500 if q else 5000) + gen.odd_member_cases(ctx.rng, 1500 if q else 15000) \
         + gen.c11_cases(ctx.rng, 500 if q else 5000)
+    items += gen.trailing_commas(items, ctx.rng, 1500 if q else 15000)
     gen.TREE_TYPE_FORMS = saved_forms
     named = []
     for i, it in enumerate(items):
@@ -654,7 +655,10 @@ def obs_C10(s, rec=None):
     c = vlib.outcome_class(s)
     if c != 'ok':
         return vlib.obs_msgs(s)
-    return ('ok', tuple((h, ok) for h, _, ok in c10_sites(s, rec.get('item'))))
+    it = rec.get('item')
+    if it is not None and it.meta.get('expect') == {'from': None, 'into': None}:
+        return ('ok', vlib.nospacing(s))          # no expectation (e.g. `~` where no member exists): the whole output is observed
+    return ('ok', tuple((h, ok) for h, _, ok in c10_sites(s, it)))
 
 
 def prop_C10(ctx):
@@ -734,7 +738,7 @@ def prop_C05(ctx):
                     continue
                 nctx += 1
                 # the winner's marker number differs between the single-instruction item (always 1) and this one: normalise
-                want = ref.replace('e1', 'e%d' % (w + 1)).replace('g1', 'g%d' % (w + 1)) if w is not None else ref
+                want = ref.replace('e1', 'e%d' % (w + 1)).replace('g1', 'g%d' % (w + 1)).replace('Ty1', 'Ty%d' % (w + 1)) if w is not None else ref
                 if text != want:
                     ctx.report(r, 'conversion (%s, fallible=%s, %s): the instruction that should take effect is %s, but the impl is not the one generated '
                                'when only that instruction is present' % (kind, fallible, cp, ('#%d %s' % (w + 1, attrs[w].render())) if w is not None else 'none'),
@@ -1269,6 +1273,12 @@ def prop_C08(ctx):
                 ctx.report(r, 'inner_attribute(..) is not attached inside the fn body at its start: `#![..]` appears after other statements and the '
                            'generated impl does not parse', 'position of `#!` in the implementation\'s tokens + syn::parse_str::<File>',
                            key='qret-parent' if (qret and has_parent) else 'inner-attr-position')
+            continue
+        if vlib.outcome_class(r['out']) == 'err' and not r['item'].meta.get('may_reject'):
+            # the parameters are the documented ones on a type whose shape supports them: the instruction must be accepted
+            ctx.report(r, 'an instruction with documented parameters (%s) is rejected: %s' % (', '.join(k for k, v in r['item'].meta['spec'].items() if v),
+                                                                                         '; '.join(str(m) for m in vlib.err_msgs(r['out']))[:200]),
+                       'valid-by-construction input', key='rejected')
             continue
         if vlib.outcome_class(r['out']) != 'ok' or not r.get('sem'):
             continue
